@@ -1,2 +1,182 @@
-(* placeholder until the proofs land *)
-From Sccache Require Import Model.DiskCache.
+(* Properties/C06.v — pinned statements for property C06:
+   "Disk cache entries appear atomically and survive crashes intact".
+
+   Model: Model/DiskCache.v (DiskCache::put / get at lock granularity over Model/Lru.v, an inode
+   layer, server death = every call in flight lost, restart = LruDiskCache::new on what is on disk).
+   A world is run by [exec (start c d ths) sched]: c the capacity, d the directory found at start-up,
+   ths the calls (TPut k n chunks fail / TGet k — any number, any keys, ANY chunking of the value
+   [concat chunks]), sched ANY list of thread ids.  Events in [wlog]: ECommit t k v = put t renamed
+   its temp file, holding exactly v, to k;  EOpen t k = get t looked k up under the lock;
+   ERet t k r = get t returned r.
+
+   Key paths never collide with temp-file names (C06_hex_keys_not_temp), which is what allows the
+   model to keep temp files in a name space of their own. *)
+From Coq Require Import List NArith Bool.
+From Sccache Require Import Base.Sx Model.Lru Model.DiskCache Proofs.DiskCache.
+Import ListNotations.
+Local Open Scope N_scope.
+
+(* Every lookup that returns an entry returns, byte for byte, the complete value of a put to the SAME
+   key whose Commit step precedes the lookup's Open step in the schedule (or an entry that was in the
+   directory at start-up) — never a prefix, a mixture or another key's bytes; and every finished
+   lookup is in the log, so this speaks about all of them.  For all capacities, directories, sets of
+   calls, chunkings and schedules. *)
+Theorem C06_get_complete :
+  forall (c : N) (d : disk) (ths : list thread) (sched : list nat),
+  wf_disk d = true -> forallb is_call ths = true ->
+  let w := exec (start c d ths) sched in
+  (forall l1 l2 t k v, wlog w = l1 ++ ERet t k (GHit v) :: l2 ->
+     nth_error ths t = Some (TGet k) /\
+     exists l0 l0', l1 = l0 ++ EOpen t k :: l0' /\
+       (initial_entry d k v \/
+        exists t' n chunks f, In (ECommit t' k v) l0 /\
+          nth_error ths t' = Some (TPut k n chunks f) /\ v = concat chunks)) /\
+  (forall t k r, nth_error (wt w) t = Some (TGetDone k r) ->
+     nth_error ths t = Some (TGet k) /\ In (ERet t k r) (wlog w)).
+Proof. exact get_complete. Qed.
+Print Assumptions C06_get_complete.
+
+(* No lookup ever fails, and a put fails only if its own write failed (it then abandons its reservation). *)
+Theorem C06_no_errors :
+  forall (c : N) (d : disk) (ths : list thread) (sched : list nat),
+  disk_ok d -> forallb is_call ths = true ->
+  let w := exec (start c d ths) sched in
+  forall t, (forall k, nth_error (wt w) t <> Some (TGetDone k GErr)) /\
+            (nth_error (wt w) t = Some (TPutDone PErr) -> exists k n ch, nth_error ths t = Some (TPut k n ch true)).
+Proof. exact no_errors. Qed.
+Print Assumptions C06_no_errors.
+
+(* The server dies after ANY prefix of ANY schedule; a new server (any capacity c') opens the directory.
+   Then: no temp file remains, none is listed, indexed or in the directory; every path in the directory
+   holds the complete value of a put that had reached its Commit rename before the crash, or an initial
+   entry; the size counts exactly the indexed entries, each of which is served complete and has the
+   recorded length (nothing is reserved, nothing else is counted). *)
+Theorem C06_crash_safe :
+  forall (c : N) (d : disk) (ths : list thread) (sched : list nat) (n : nat) (c' : N),
+  disk_ok d -> forallb is_call ths = true ->
+  let w := exec (start c d ths) (firstn n sched) in
+  let s' := restart c' (ws w) in
+  tmps s' = [] /\
+  (forall k, is_temp k = true ->
+     alookup k (files (lru s')) = None /\ alookup k (index (lru s')) = None /\ alookup k (dir s') = None) /\
+  (forall k i, alookup k (dir s') = Some i ->
+     exists v, hlookup i (inodes s') = Some v /\
+       (initial_entry d k v \/
+        exists t' n0 chunks f, In (ECommit t' k v) (wlog w) /\
+          nth_error ths t' = Some (TPut k n0 chunks f) /\ v = concat chunks)) /\
+  size (lru s') = sum_sizes (index (lru s')) /\
+  (forall k sz, alookup k (index (lru s')) = Some sz ->
+     exists v, visible s' k = Some v /\ blen v = sz).
+Proof. exact crash_safe. Qed.
+Print Assumptions C06_crash_safe.
+
+(* ... and whatever the restarted server serves afterwards, under any new calls and schedule, is an
+   initial entry, a value committed before the crash, or a value committed (before the lookup) after
+   the restart; its lookups never fail. *)
+Theorem C06_crash_then_get :
+  forall (c : N) (d : disk) (ths : list thread) (sched : list nat)
+         (c' : N) (ths2 : list thread) (sched2 : list nat),
+  disk_ok d -> forallb is_call ths = true -> forallb is_call ths2 = true ->
+  let w1 := exec (start c d ths) sched in
+  let w2 := exec (start c' (persist (ws w1)) ths2) sched2 in
+  (forall l1 l2 t k v, wlog w2 = l1 ++ ERet t k (GHit v) :: l2 ->
+     nth_error ths2 t = Some (TGet k) /\
+     (initial_entry d k v \/
+      (exists t' n chunks f, In (ECommit t' k v) (wlog w1) /\
+         nth_error ths t' = Some (TPut k n chunks f) /\ v = concat chunks) \/
+      (exists l0 l0' t' n chunks f, l1 = l0 ++ EOpen t k :: l0' /\ In (ECommit t' k v) l0 /\
+         nth_error ths2 t' = Some (TPut k n chunks f) /\ v = concat chunks))) /\
+  (forall t k, nth_error (wt w2) t <> Some (TGetDone k GErr)).
+Proof. exact crash_then_get. Qed.
+Print Assumptions C06_crash_then_get.
+
+(* Between Reserve and Commit nothing of the new entry can be seen: in every reachable state, the
+   Reserve step of any put can only make entries disappear (eviction), and its Write steps and its
+   Abandon step change no lookup result at all; [visible s k] is what a lookup of k returns in s
+   (C06_lookup_visible). *)
+Theorem C06_uncommitted_invisible :
+  forall (c : N) (d : disk) (ths : list thread) (sched : list nat),
+  wf_disk d = true -> forallb is_call ths = true ->
+  let w := exec (start c d ths) sched in
+  forall t th, nth_error (wt w) t = Some th ->
+    let s' := fst (fst (step_thread t (ws w) th)) in
+    match th with
+    | TPut _ _ _ _ => forall k', visible s' k' = visible (ws w) k' \/ visible s' k' = None
+    | TPutW _ _ _ (_ :: _) _ | TPutW _ _ _ [] true => forall k', visible s' k' = visible (ws w) k'
+    | _ => True
+    end.
+Proof. exact uncommitted_invisible. Qed.
+Print Assumptions C06_uncommitted_invisible.
+
+Theorem C06_lookup_visible :
+  forall (t : nat) (s : dst) (k : key),
+  let '(s1, th1, _) := step_thread t s (TGet k) in
+  let '(_, th2, _) := step_thread t s1 th1 in
+  (forall v, th2 = TGetDone k (GHit v) -> visible s k = Some v) /\
+  (th2 = TGetDone k GMiss -> visible s k = None).
+Proof. exact lookup_visible. Qed.
+Print Assumptions C06_lookup_visible.
+
+(* make_key_path of a hex key (what sccache uses) is never a temp-file name *)
+Theorem C06_hex_keys_not_temp :
+  forall k : list N, is_hex_key k = true -> is_temp (make_key_path k) = false.
+Proof. exact hex_keys_not_temp. Qed.
+Print Assumptions C06_hex_keys_not_temp.
+
+(* ---------- non-vacuity ---------- *)
+
+Definition kx : list N := [97; 49; 98; 50].          (* "a1b2" *)
+Definition px : key := make_key_path kx.             (* "a/1/a1b2" *)
+
+Example hex_key_ex : is_hex_key kx = true.
+Proof. reflexivity. Qed.
+
+(* a directory with one old entry for the key and a leftover temp file *)
+Definition ex_disk : disk :=
+  {| d_files := [(px, (2, 5))]; d_dir := [(px, 0)]; d_inodes := [(0, [9; 9]); (1, [7])];
+     d_tmps := [(0, 1)]; d_next_ino := 2; d_next_h := 1; d_clock := 10 |}.
+
+Example ex_disk_ok : disk_ok ex_disk.
+Proof.
+  constructor; simpl.
+  - reflexivity.
+  - split; [intros k' []|exact I].
+  - intros k sz mt. destruct (bytes_eqb k px); intros H; inversion H; subst. discriminate.
+  - intros k1 k2 sz1 sz2 mt. destruct (bytes_eqb k1 px) eqn:E1; destruct (bytes_eqb k2 px) eqn:E2;
+      intros H1 H2; try discriminate. apply bytes_eqb_eq in E1, E2. congruence.
+  - intros k sz mt. destruct (bytes_eqb k px) eqn:E; intros H; inversion H; subst.
+    exists 0, [9; 9]. auto.
+  - intros k i [H|[]]. inversion H; subst. reflexivity.
+Qed.
+
+(* two puts on one key, written in chunks, interleaved with a lookup: the lookup (opened after the
+   first commit, read after the second) returns the complete first value *)
+Definition ex_threads : list thread :=
+  [TPut px 2 [[1]; [1]] false; TPut px 3 [[2; 2]; [2]] false; TGet px].
+
+Example two_puts_one_get :
+  let w := exec (start 100 ex_disk ex_threads) [0; 1; 0; 1; 0; 0; 2; 1; 1; 2]%nat in
+  wt w = [TPutDone POk; TPutDone POk; TGetDone px (GHit [1; 1])] /\
+  visible (ws w) px = Some [2; 2; 2].
+Proof. vm_compute. split; reflexivity. Qed.
+
+(* a crash between Write and Commit: the temp file is on disk, the old entry is still served; after
+   restart the temp files are gone and the key holds the complete old entry *)
+Example crash_between_write_and_commit :
+  let w := exec (start 100 ex_disk ex_threads) [0; 0; 0]%nat in
+  length (tmps (ws w)) = 1%nat /\ visible (ws w) px = Some [9; 9] /\
+  tmps (restart 100 (ws w)) = [] /\ visible (restart 100 (ws w)) px = Some [9; 9] /\
+  size (lru (restart 100 (ws w))) = 2.
+Proof. vm_compute. repeat split; reflexivity. Qed.
+
+(* a crash right after the Commit rename: the new complete entry survives *)
+Example crash_after_commit :
+  let w := exec (start 100 ex_disk ex_threads) [0; 0; 0; 0]%nat in
+  visible (restart 100 (ws w)) px = Some [1; 1].
+Proof. vm_compute. reflexivity. Qed.
+
+(* capacity pressure: the second reservation is refused while the first is in flight, nothing breaks *)
+Example reservation_refused :
+  let w := exec (start 4 ex_disk ex_threads) [0; 1; 0; 0; 0]%nat in
+  wt w = [TPutDone POk; TPutDone PTooLarge; TGet px] /\ visible (ws w) px = Some [1; 1].
+Proof. vm_compute. split; reflexivity. Qed.
